@@ -236,6 +236,18 @@ class Holder(Ops):
     @value.setter
     def value(self, x): self.__imatmul__(x)
 
+    @property
+    def unsigned(self):
+        return MView(self, self.w - 1, 0, kind='u') if self.kind in mv.VECK else MVal(mv.view('unsigned', self._mv()))
+
+    @property
+    def signed(self):
+        return MView(self, self.w - 1, 0, kind='s') if self.kind in mv.VECK else MVal(mv.view('signed', self._mv()))
+
+    @property
+    def bitvector(self):
+        return MView(self, self.w - 1, 0, kind='bv') if self.kind in mv.VECK else MVal(mv.view('bitvector', self._mv()))
+
     # ---- element / slice access
     def __getitem__(self, k):
         if isinstance(k, slice):
@@ -276,19 +288,33 @@ class MVar(Holder):
 class MView(Ops):
     """slice [hi:lo] or bit of a holder; reads give the value at access time (index captured)"""
 
-    def __init__(self, h, hi, lo, bit=False):
+    def __init__(self, h, hi, lo, bit=False, kind='bv'):
         if hi is None or lo is None or not (0 <= lo <= hi < h.w):
             raise ModelError("slice bounds")
         self.h = h
         self.hi = hi
         self.lo = lo
         self.bit = bit
+        self.kind = kind
 
     def _mv(self):
         v = self.h._mv()
         if self.bit:
             return mv.BIT((v.v >> self.lo) & 1)
-        return mv.BV(self.hi - self.lo + 1, v.v >> self.lo)
+        return mv.mkvec(self.kind, self.hi - self.lo + 1, v.v >> self.lo)
+
+    # typed views of a stored object alias its storage: they are evaluated when used, not when created
+    @property
+    def unsigned(self):
+        return self if self.bit else MView(self.h, self.hi, self.lo, kind='u')
+
+    @property
+    def signed(self):
+        return self if self.bit else MView(self.h, self.hi, self.lo, kind='s')
+
+    @property
+    def bitvector(self):
+        return self if self.bit else MView(self.h, self.hi, self.lo, kind='bv')
 
     def _piece(self, x):
         w = self.hi - self.lo + 1
@@ -296,7 +322,7 @@ class MView(Ops):
             return ((1 << w) - 1) if x.full else 0
         x = lift(x)
         try:
-            r = mv.convert(x, 'bit', None) if self.bit else mv.convert(x, 'bv', w)
+            r = mv.convert(x, 'bit', None) if self.bit else mv.convert(x, self.kind, w)
         except Reject as e:
             raise ModelError(f"conversion: {e}")
         if r is None:
